@@ -51,6 +51,10 @@ CHECKS = {
             "technique": "property-based testing (rapid) on a real filesystem with an interloper editing between scan and transition; oracle = independent lstat/readlink/read walk before and after",
             "note": "The interloper acts between the scan and the transition call (not during it): the documented check-to-use race window inside a transition is out of scope. Runs as root on ext4.",
             "text": "For random trees and plans, 1-3 modifications of every kind the statement lists are applied after the scan; each modified object covered by a transition must still be there afterwards with identical lstat identity, bytes or target, must be reported as a problem, and transitions that were not interfered with must complete."},
+    "C11": {"level": "exploration", "steps": [step("./c11_halt/", shards={"thorough": 8}, timeout={"quick": 900, "thorough": 5400})],
+            "technique": "stateful property-based testing (rapid) of real in-process sessions on two real roots; oracle = independent lstat walks + independent classification of (archive, alpha, beta)",
+            "note": "Sessions run in no-watch mode and are driven by waiting flushes; the polling-triggered path to a cycle is not exercised here (C42 covers polling). The archive file is read back as the last-synchronized state.",
+            "text": "Random warm-up histories build shared content; then one root is deleted, replaced by a file or emptied, with optional edits on the other side. Across two flush attempts, late edits, and a resume, the untouched root must keep every object, and where the classification says the change may not propagate the flush must fail with the matching Halted status, no cycle may complete, and both roots must stay frozen."},
     "C06": {"level": "exploration", "steps": RECONCILE_PURE(), "technique": PBT, "note": TREE_NOTE,
             "text": "Same enumeration: no two actions on equal or nested paths, every action sits at a first disagreement found by an independent walker, conflicts have changes on both sides within their root."},
 }
